@@ -190,5 +190,15 @@ LIMITATIONS = {
     # feature commits (round r6) that replace a recognised construct by open-coded byte handling
     "r-parser-leaves-r6-R1": "the length field of a block decoded by an open-coded loop over `i2.iter().take(digits)` with checked arithmetic on `byte - b'0'` instead of from_utf8 + from_str_radix: an explicit byte loop inside a leaf parser (direct inspection, a loop without a consuming parser, arithmetic under an is_ascii_digit guard)",
     "r-parser-leaves-r6-R2": "whitespace() examines `input.first()` itself and then applies take_while to `input[1..]`: an open-coded satisfy in front of the combinator, whose consumed language the skeleton does not compute",
+    # feature commits (round r7)
+    "r-parser-leaves-r7-R1": "optional() passes a FatalError of the wrapped parser on instead of answering None: the contract of a combinator (rule PR: optional never fails) is changed; it is equivalent only because no wrapped parser produces a fatal error today, which the rule does not establish",
+    "r-parser-leaves-r7-R2": "a fast reject in decimal_numeric_program_data by `input.first()` outside the combinators (one byte of lookahead): reported as direct inspection; the path on which first() is None and the old code goes on is infeasible but not pruned",
+    "r-parser-leaves-r7-R3": "arbitrary_program_data inspects the byte behind '#' by `first()` to report #0 blocks with their own error number: direct inspection of a remainder outside the combinators",
+    "r-parser-top-r7-R1": "argument() looks at `input.first()` to answer '(' with -178: direct inspection outside the combinators (same lookahead idiom)",
+    "r-parser-top-r7-R2": "parse() skips the parameter parsers when the byte behind the white space is a newline or ';' (`at_unit_end` by first()): an exactly equivalent lookahead that the skeleton rules cannot see through",
+    "r-process-r7-R2": "process gains a `discarding` state that drops the rest of an oversized message up to its terminator: a new loop-carried flag and a second scan form, outside the buffer discipline the K-rules read",
+    "r-process-r7-R4": "the response buffer of process wrapped in a private ResponseBuffer<N> that truncates back to the last flush on a failed write: the rules identify the response buffer by its type and its uses",
+    "r-run-r7-R1": "run_blocking polls the future of run with a no-op waker inside an `unsafe` Pin::new_unchecked block: user-written unsafe code is outside the panic-edge universe (C05 fails closed) and a future that is polled by hand is not `awaited in place`",
+    "r-run-r7-R3": "commands whose handler returns a value are given a discarding writer (NoResponse): a Write impl that by design does not append what it is given, against the writer rule of C04",
     "r-process-r6-R3": "process skips run() for a line that consists of white space only (`data[..len-1].iter().all(is_whitespace)`): showing that run would have been a no-op on such a line is a fact about the parser that the buffer-discipline rules do not have (they require one run per terminator)",
 }
